@@ -387,8 +387,8 @@ func run(r *h.Run, sc scenario, judge bool) result {
 				if observed[pl] < n {
 					key = "qos2-not-forwarded"
 				} else if pendingHandover(ev, pl) {
-					// every extra hand-over began while the backend had not yet
-					// acknowledged the first one
+					// every extra hand-over began while the first one was not yet
+					// acknowledged (the backend's ack callback had not returned)
 					key = "qos2-forwarded-twice/handover-still-unacknowledged-at-retransmitted-pubrel"
 				}
 				fail(key, fmt.Sprintf("QoS 2 message %s: the broker processed %d PUBREL(s) for a stored PUBLISH but handed the message to the backend %d time(s)", pl, n, observed[pl]))
@@ -447,7 +447,7 @@ func pendingHandover(ev []bh.Event, pl string) bool {
 		if e.Kind == "backend-publish" && strings.HasSuffix(e.Note, hexpl) {
 			pubs = append(pubs, e.Seq)
 		}
-		if e.Kind == "ack-invoked" && strings.HasSuffix(e.Note, hexpl) && firstAck < 0 {
+		if e.Kind == "ack-returned" && strings.HasSuffix(e.Note, hexpl) && firstAck < 0 {
 			firstAck = e.Seq
 		}
 	}
